@@ -46,13 +46,16 @@ pub open spec fn vqsum(q: Seq<(&Node, f64)>, c: VCtx) -> real
 {
     if q.len() == 0 { 0real } else { vqsum(q.drop_last(), c) + rv(q.last().1) * val(*q.last().0, c) }
 }
-pub open spec fn vctx_of<C: ChanceInfoset, S: AsRef<[f64]>>(p1: bool, infosets: &[DeviationInfo], chance_info: &[C], strat_info: &[S]) -> VCtx {
+pub open spec fn vctx_seq<C: ChanceInfoset, S: AsRef<[f64]>>(p1: bool, infos: Seq<DeviationInfo>, chance_info: &[C], strat_info: &[S]) -> VCtx {
     VCtx {
         chance: Seq::new(chance_info@.len(), |i: int| chance_info@[i].probs_view()),
         opp: Seq::new(strat_info@.len(), |i: int| asref_view::<S, [f64]>(&strat_info@[i])@),
-        utab: Seq::new(infosets@.len(), |i: int| infosets@[i].max_utility),
+        utab: Seq::new(infos.len(), |i: int| infos[i].max_utility),
         p1: p1,
     }
+}
+pub open spec fn vctx_of<C: ChanceInfoset, S: AsRef<[f64]>>(p1: bool, infosets: &[DeviationInfo], chance_info: &[C], strat_info: &[S]) -> VCtx {
+    vctx_seq(p1, infosets@, chance_info, strat_info)
 }
 pub proof fn lemma_vqsum_push(q: Seq<(&Node, f64)>, e: (&Node, f64), c: VCtx)
     ensures vqsum(q.push(e), c) == vqsum(q, c) + rv(e.1) * val(*e.0, c)
